@@ -47,7 +47,7 @@ assumed('File.readline', params={}, returns='str', self_type='File', modifies=['
               "or '' at end")
 
 EVENT = 'Tuple[str, str, int, Opt[str]]'
-model('Sink', fields={'events': 'Seq[%s]' % EVENT}, external=True)
+model('Sink', fields={'events': 'Seq[%s]' % EVENT, 'finished': 'bool'}, external=True, defaults={'finished': 'False'})
 ERR_THEN = [Clause('implies(exc.has_lineno, exc.lineno is not None)')]
 assumed('Sink.addValue', self_type='Sink',
         params={'key': 'str', 'value': 'str', 'position': 'Tuple[int, Opt[int], Opt[str]]'},
